@@ -63,6 +63,8 @@ HierFails ==
     (IF DSum([k \in 1..Len(Ev.bins) |-> Ev.bins[k].cap], Len(Ev.bins)) = Ev.totalCap
         /\ Ev.totalCap = FreeAreaIn(Ev.regions, AreaOf(Ev.regions).x0, AreaOf(Ev.regions).x1, AreaOf(Ev.regions).y0, AreaOf(Ev.regions).y1)
      THEN {} ELSE {F("C16", <<"capacities of this view do not add up to the free area", Ev.op>>, "aggregate")}) \cup
+    \* the demands the object holds are those it was built with (a refused update of the demands changes nothing)
+    (IF Ev.objDemands = Ev.demands THEN {} ELSE {F("C16", <<"cell demands held by the placement differ from those it was given", Ev.op, Ev.step>>, "demands")}) \cup
     (IF Partition(Ev.bins, Ev.demands, Ev.cells) THEN {} ELSE {F("C16", <<"cells are not partitioned by the bins", Ev.op, Ev.step>>, "partition")}) \cup
     (IF CoordInside(Ev.bins, Ev.demands, Ev.cells, Ev.limX, Ev.limY) THEN {} ELSE {F("C16", <<"reported coordinate outside the bin", Ev.op>>, "coord")})
 Hier == Is("Hier") /\ fails' = HierFails /\ l' = l + 1
